@@ -4,6 +4,7 @@ import traceback
 import numpy as np
 
 import cirkit.symbolic.functional as SF
+from cirkit.utils.scope import Scope
 
 import evalc
 import export
@@ -15,6 +16,26 @@ PID = "C06"
 KINDS = ["emb", "cat_probs", "cat_logits", "cat_softmax", "cat_softmax0", "bin", "gau", "poly"]
 
 
+class _G:
+    pass
+
+
+def gauss_circuit(rng):
+    from cirkit.symbolic import layers as L
+    from cirkit.symbolic import parameters as P
+    from cirkit.symbolic.circuit import Circuit
+    K = rng.choice([1, 2])
+    n = rng.choice([2, 3, 4])
+    g = _G()
+    g.doms = {v: ("real",) for v in range(n)}
+    parts = [L.GaussianLayer(Scope([v]), K, mean=P.Parameter.from_input(gen.tensor(gen.dy_array(rng, (K,), -4, 4))),
+                             stddev=P.Parameter.from_input(gen.tensor(gen.dy_array(rng, (K,), 2, 8)))) for v in range(n)]
+    pl = L.HadamardLayer(K, arity=n)
+    sl = L.SumLayer(K, 1, arity=1, weight=P.Parameter.from_input(gen.tensor(gen.dy_array(rng, (1, K), 1, 8))))
+    g.desc = {"family": "homogeneous-gaussians", "kinds": ["gau"] * n, "sums": 1, "prods": 1, "arity": [1], "K": K, "nout": 1}
+    return Circuit(parts + [pl, sl], {pl: parts, sl: [pl]}, [sl]), g
+
+
 def evidence_case(rep, cs, seed, i):
     rng = rng_for(seed, PID, i)
     monotone = rng.random() < 0.5
@@ -22,16 +43,28 @@ def evidence_case(rep, cs, seed, i):
     if i % 4 == 0:  # many different input kinds / sizes in one frontier, observed together
         o["nvars"] = 4
         o["prod"] = "had"
-    sc, g = gen.gen_circuit(rng, **o)
+    homog = i % 5 == 1  # several continuous inputs of identical structure in one frontier (one fold group), observed with a mix of Python ints and floats
+    if homog:
+        sc, g = gauss_circuit(rng)
+        monotone = True
+    else:
+        sc, g = gen.gen_circuit(rng, **o)
     scope = sorted(sc.scope._set)
-    k = rng.randint(1, len(scope))
+    k = rng.randint(1, len(scope)) if i % 5 != 1 else rng.randint(max(1, len(scope) - 1), len(scope))
     ov = sorted(rng.sample(scope, k))
     obs = {}
     for v in ov:
         d = g.doms[v]
-        obs[v] = rng.randrange(d[1]) if d[0] == "disc" else gen.dy(rng, 0 if monotone else -6, 6, 4)
+        if d[0] == "disc":
+            obs[v] = rng.randrange(d[1])
+        elif rng.random() < 0.35:
+            obs[v] = rng.randint(0 if monotone else -2, 2)       # an integer-typed observation of a continuous variable
+        else:
+            obs[v] = gen.dy(rng, 0 if monotone else -6, 6, 4)
     sem = pick_semiring(rng, monotone)
     fold, opt = rng.choice(evalc.FLAGS)
+    if homog and rng.random() < 0.7:
+        fold = True
     desc = {"i": i, "seed": seed, "op": "evidence", "obs": obs, "sem": sem, "fold": fold, "opt": opt, **g.desc}
     rep.count("op:evidence")
     rep.count("semiring:" + sem)
